@@ -79,13 +79,26 @@ def render_do(dofile, spec):
          "v_begin %s %s %d \"$1\" \"$2\" \"$3\"" % (shq(dodir), shq(dofile), spec["v"])]
     for st in spec["body"]:
         k = st[0]
-        if k == "dep":
+        if k == "depflag":
+            # redo-ifchange paths only while the harness flag exists: an input of the script that redo does not know
+            if st[2]:
+                L.append('if [ -e "$RV_CTL/depflag.%s" ]; then v_ifchange %s; fi' % (
+                    st[1], " ".join(shq(rel(p, dodir)) for p in st[2])))
+        elif k == "dep":
             paths = st[2]
-            if paths:
+            cd = st[3].get("cd") if len(st) > 3 and isinstance(st[3], dict) else None
+            if paths and cd is not None:
+                # the script changes its working directory for the call: ( cd dir && redo-ifchange <paths from there> )
+                L.append("v_ifchange_cd %s %s" % (shq(rel(cd, dodir) if cd else rel(".", dodir)),
+                                                  " ".join(shq(rel(p, cd)) for p in paths)))
+            elif paths:
                 L.append("v_ifchange " + " ".join(shq(rel(p, dodir)) for p in paths))
-                if st[1]:
-                    for p in paths:
-                        L.append("v_use %s %s" % (shq(rel(p, dodir)), shq(p)))
+            if paths and st[1]:
+                for p in paths:
+                    L.append("v_use %s %s" % (shq(rel(p, dodir)), shq(p)))
+        elif k == "softredo":
+            if st[1]:
+                L.append("v_redo_soft " + " ".join(shq(rel(p, dodir)) for p in st[1]))
         elif k == "softdep":
             paths = st[2]
             if paths:
